@@ -74,7 +74,7 @@ CFG['elide_body'] += CFG['force_assumed']
 K = 'frost-core/src/'
 CFG['strip_clauses'] = {
     K + 'batch.rs :: Item<C> :: new': ['exact'],
-    K + 'keys.rs :: split': ['value'],
+    K + 'keys.rs :: split': ['value', 'p_dealer_output'],
     K + 'lib.rs :: aggregate_custom': ['exact', 'released_signatures_verify'],
     K + 'lib.rs :: aggregate': ['as_first_cheater'],
     K + 'lib.rs :: detect_cheater': ['challenge_error', 'none', 'first', 'all'],
@@ -84,7 +84,7 @@ CFG['strip_clauses'] = {
     K + 'traits.rs :: Ciphersuite :: verify_signature': ['rfc'],
     K + 'verifying_key.rs :: VerifyingKey<C> :: verify': ['exact'],
     # transitively (they rely on a stripped clause of a callee, or on the default encoding of the signature codec hooks):
-    K + 'keys.rs :: generate_with_dealer': ['value'],
-    K + 'signature.rs :: Signature<C> :: serialize': ['identity', 'value', 'length'],
-    K + 'signature.rs :: Signature<C> :: deserialize': ['wrong_length', 'bad_R', 'bad_z', 'value'],
+    K + 'keys.rs :: generate_with_dealer': ['value', 'p_dealer_output'],
+    K + 'signature.rs :: Signature<C> :: serialize': ['identity', 'value', 'length', 'p_identity_has_no_encoding', 'p_encoding'],
+    K + 'signature.rs :: Signature<C> :: deserialize': ['wrong_length', 'bad_R', 'bad_z', 'value', 'p_rejects_everything_but_canonical_encodings', 'p_decodes_the_canonical_encoding'],
 }
